@@ -216,7 +216,7 @@ def p_stmt(s, ind, twin):
     raise ValueError(k)
 
 
-HEADER = "from harness.worlds.rt2 import E, C, R, IT, U, O, CM, F, B, SEEN, A, ScriptExc\n" \
+HEADER = "from harness.worlds.rt2 import E, C, R, IT, U, O, CM, F, B, SEEN, A, ScriptExc\nfrom ptera import tag\n" \
          "def BX(name, value):\n    B(name, value)\n    return value\n"
 
 
